@@ -19,7 +19,9 @@ import urwid
 from urwid import canvas as _canvas
 
 B = 2**26
-Dim = Int(0, B - 1)  # every size a child reports is a sane screen dimension (assumption "sizes < 2^26")
+DIMMAX = 2**24  # sizes handed around
+PARTMAX = 2**22  # one child dimension / margin (sums of three stay below DIMMAX)
+Dim = Int(0, PARTMAX - 1)  # every size a child reports is a sane screen dimension (assumption "sizes < 2^26")
 
 
 def canvas_shape(cls=_canvas.Canvas):
@@ -82,22 +84,33 @@ class WidgetProtocol(Protocol):
         return out
 
     def _ens_cursor(st, w, a, r):
-        return ()
+        """A reported cursor lies inside the widget's own area at that size."""
+        size = _size_parts(a["size"])
+        P = PROTOCOLS["Widget"]
+        if len(size) == 2:
+            c, rws = size
+        elif len(size) == 1:
+            c, rws = size[0], P.call_quiet(st, w, "rows", dict(size=size, focus=True))
+        else:
+            c, rws = P.call_quiet(st, w, "pack", dict(size=(), focus=True))
+        return [either(mk_bool(r.isnone), both(r.val[0] < c, r.val[1] < rws))]
 
     methods = {
         "rows": PMethod(Dim, params=["size", "focus"], defaults={"focus": False}, ensures=_ens_rows),
         "pack": PMethod(Tup(Dim, Dim), params=["size", "focus"], defaults={"size": (), "focus": False}, ensures=_ens_pack),
         "render": PMethod(CANVAS, params=["size", "focus"], defaults={"focus": False}, ensures=_ens_render),
         "selectable": PMethod(Bool, params=[]),
-        "get_cursor_coords": PMethod(Opt(Tup(Nat, Nat)), params=["size"]),
+        "get_cursor_coords": PMethod(Opt(Tup(Nat, Nat)), params=["size"], ensures=_ens_cursor),
         "get_pref_col": PMethod(Opt(Int), params=["size"]),
         "move_cursor_to_coords": PMethod(Bool, params=["size", "col", "row"], mutates=True),
         "mouse_event": PMethod(Bool, params=["size", "event", "button", "col", "row", "focus"], mutates=True),
         "keypress": PMethod(Opt(Opaque("Key")), params=["size", "key"], mutates=True),
         "sizing": PMethod(Opaque("SizingSet"), params=[]),
         "_invalidate": PMethod(None, params=[], mutates=True),
+        "get_scrollpos": PMethod(Int, params=["size", "focus"], defaults={"size": None, "focus": False}),
+        "set_scrollpos": PMethod(None, params=["position"], mutates=True),
     }
-    has = {"automove_cursor_on_scroll": False, "get_cursor_coords": "uf", "get_pref_col": "uf", "move_cursor_to_coords": "uf", "mouse_event": "uf", "keypress": "uf", "rows": True, "pack": True, "render": True, "selectable": True}
+    has = {"automove_cursor_on_scroll": False, "set_scrollpos": "uf", "get_scrollpos": "uf", "get_cursor_coords": "uf", "get_pref_col": "uf", "move_cursor_to_coords": "uf", "mouse_event": "uf", "keypress": True, "rows": True, "pack": True, "render": True, "selectable": True}
 
 
 PROTOCOLS["Widget"] = WidgetProtocol()
@@ -377,3 +390,48 @@ class _CanvasJoinContract(Contract):
 
 
 REGISTRY[_CanvasJoinContract.target] = _CanvasJoinContract()
+
+
+# ---- keys and the command map (opaque): command_map[key] is some Command member or None
+
+from urwid.command_map import Command as _Command  # noqa: E402
+
+COMMANDS = tuple(_Command) + (None,)
+
+
+class CommandMapProtocol(Protocol):
+    kind = "CommandMap"
+    methods = {}
+
+    def subscript(self, ip, st, obj, key):
+        from pyvc.protocol import encode_arg
+
+        key = st.force(key)
+        f = z3.Function("CommandMap.get", z3.IntSort(), z3.IntSort())
+        t = encode_arg(st, key)[0]
+        if t.sort() != z3.IntSort():
+            g = z3.Function("Key.code", t.sort(), z3.IntSort())
+            t = g(t)
+        e = f(t)
+        st.assume(z3.Or(*[e == V.atom_code(c) for c in COMMANDS]))
+        r = V.SAtom(e, COMMANDS)
+        st.ghost.setdefault("uf_calls", []).append(("command_map", "lookup", {"key": key}, r))
+        return r
+
+
+PROTOCOLS["CommandMap"] = CommandMapProtocol()
+PROTOCOLS["Key"] = type("KeyProtocol", (Protocol,), {"kind": "Key", "methods": {}})()
+COMMAND_MAP = V.SOpaque("CommandMap", z3.Const("the_command_map", S.opaque_sort("CommandMap")))
+
+
+def command_of(key):
+    """command_map[key] (dual use: natively the default command map)."""
+    if isinstance(key, V.Sym):
+        return PROTOCOLS["CommandMap"].subscript(None, cur(), COMMAND_MAP, key)
+    return urwid.command_map[key]
+
+
+@contract("urwid/widget/widget.py:Widget._invalidate", property=(), assumed=True, notes="drops this widget's cached canvases (C06 owns the cache); logged in the ghost trace")
+class w_invalidate:
+    self_shape = Obj(urwid.Widget, {})
+    log_event = "_invalidate"
